@@ -210,6 +210,13 @@ class Machine:
                         ns["VERBOSE_LOGGING"] = not shape["auto"]     # (AutonomousStateMachine: True by default)
                 cls = type("M%d_L%d" % (uid, ly), (cls,), ns)
         self.cls = cls
+        self.byenum = None
+        if uid % 7 == 5 and not extra["byobj"]:
+            import enum
+            try:
+                self.byenum = enum.Enum("St%d" % uid, {n: n for n in shape["states"]}, type=str)
+            except Exception:  # noqa
+                self.byenum = None
         if uid % 2 == 1:
             # the base classes of the hierarchy are machines in their own right and may have been instantiated (and
             # bound) before the class under observation is: what that class is must not depend on it
@@ -253,6 +260,8 @@ class Machine:
     def ref(self, s):
         if self.extra["byobj"]:
             return getattr(self.cls, s)
+        if self.byenum is not None:
+            return self.byenum[s]        # a str-based Enum member whose value is the state's name
         return s
 
     # -- state function callback ----------------------------------------------------------------
